@@ -387,6 +387,20 @@ def check_dominance(fg, cg, inv, res, mpc_o, val_o, pub_o):
 def switch_after_call(b, bi):
     """(switch block, {value: target}, otherwise) for the switch on the discriminant / bool of the
     result of the call in block bi."""
+    r_ = _switch_after_call(b, bi)
+    if r_ is None:
+        later = cond_switches(b)[1].get(bi, [])
+        origin = {}
+        for x_ in later:
+            origin.setdefault(b.blocks[x_]["thr"][0] if b.blocks[x_].get("thr") else x_, x_)
+        later = sorted(origin.values())
+        if len(later) == 1:
+            tt = b.blocks[later[0]]["t"]
+            return later[0], {v: tb for v, tb in tt["ts"]}, tt["else"]
+    return r_
+
+
+def _switch_after_call(b, bi):
     t = b.blocks[bi]["t"]
     d = t["d"]["l"]
     cur = t["t"]
@@ -421,6 +435,55 @@ def switch_after_call(b, bi):
     return None
 
 
+
+def cond_switches(b):
+    """For every switch of b: the statement / call that computes its condition, found through plain moves, `!`,
+    and fields of a tuple of flags (`match (a == b, v.is_empty()) { .. }`):
+    ({(block, stmt idx): [switch block]}, {call block: [switch block]})."""
+    by_stmt, by_call = {}, {}
+    for sb, blk in enumerate(b.blocks):
+        t = blk["t"]
+        if t["k"] != "switch" or t["o"]["k"] == "const" or sb not in b.live_blocks():
+            continue
+        p = t["o"]["p"]
+        cur, fld = p["l"], None
+        if p["pr"]:
+            if len(p["pr"]) == 1 and isinstance(p["pr"][0], dict) and "f" in p["pr"][0]:
+                fld = p["pr"][0]["f"]
+            else:
+                continue
+        for _ in range(8):
+            ds = defs_of(b, cur)
+            if len(ds) != 1:
+                break
+            dbi, si, r = ds[0]
+            if si == "t":
+                if fld is None:
+                    by_call.setdefault(dbi, []).append(sb)
+                break
+            if fld is not None:
+                if r["k"] == "agg" and r.get("ak") == "tuple" and fld < len(r["ops"]) and r["ops"][fld]["k"] != "const" and not r["ops"][fld]["p"]["pr"]:
+                    cur, fld = r["ops"][fld]["p"]["l"], None
+                    continue
+                break
+            if r["k"] == "bin":
+                by_stmt.setdefault((dbi, si), []).append(sb)
+                break
+            if r["k"] == "use" and r["o"]["k"] != "const":
+                op = r["o"]["p"]
+                if not op["pr"]:
+                    cur = op["l"]
+                    continue
+                if len(op["pr"]) == 1 and isinstance(op["pr"][0], dict) and "f" in op["pr"][0]:
+                    cur, fld = op["l"], op["pr"][0]["f"]
+                    continue
+                break
+            if r["k"] == "un" and r["a"]["k"] != "const" and not r["a"]["p"]["pr"]:
+                cur = r["a"]["p"]["l"]
+                continue
+            break
+    return by_stmt, by_call
+
 def b_is_adaptor_call(b, bi):
     t = b.blocks[bi]["t"]
     if t["k"] != "call":
@@ -429,7 +492,11 @@ def b_is_adaptor_call(b, bi):
     return bool(n) and n[0].rsplit("::", 1)[-1] in ("find", "any", "position", "all")
 
 
+_conds = {}
+
+
 def check_fields(fg, res, val_o):
+    _conds.clear()
     fam = {k: b for k, b in fg.bodies.items() if b.owner == val_o}
     found = {"p_own": None, "p_eval": None, "p_out": None, "inputs_len": None, "p_out_empty": None, "circ_validate": None, "dup": None}
     for k, b in fam.items():
@@ -482,8 +549,22 @@ def check_fields(fg, res, val_o):
                                     okc, _ = edge_fail_closed(pb, sblock, rej)
                                     found["p_out"] = ("ok" if okc else "open", pb, pbi, "%s(idx %s party count) over the list, reject edge %s" % (tl, o, "only reaches Err" if okc else "can reach Ok"))
                     continue
+                sw_b = bi
                 if tt["k"] != "switch" or tt["o"]["k"] == "const" or tt["o"]["p"]["l"] != s["p"]["l"]:
-                    continue
+                    # the comparison may be stored in a flag / a tuple of flags and branched on later
+                    later = _conds.setdefault(id(b), cond_switches(b))[0].get((bi, si), [])
+                    # (copies of one switch made by variant threading count once)
+                    origin = {}
+                    for x_ in later:
+                        origin.setdefault(b.blocks[x_]["thr"][0] if b.blocks[x_].get("thr") else x_, x_)
+                    later = sorted(origin.values())
+                    if len(later) != 1:
+                        continue
+                    sw_b = later[0]
+                    tt = b.blocks[sw_b]["t"]
+                    # a negation on the way flips the polarity: follow only plain moves here
+                    if any(st2["k"] == "assign" and st2["r"]["k"] == "un" for st2 in b.blocks[sw_b]["s"]):
+                        continue
                 tm = {v: tb for v, tb in tt["ts"]}
                 zero, other = tm.get("0"), tt["else"]
                 for idx_f, bnd_f, bnd_c, flip in ((fa, fc, cc, False), (fc, fa, ca, True)):
@@ -502,13 +583,13 @@ def check_fields(fg, res, val_o):
                                 if found[name] is None:
                                     found[name] = ("weak", b, bi, "comparison `%s` is not the range idiom idx >= n / idx < n" % o)
                                 continue
-                            okc, _ = edge_fail_closed(b, bi, rej)
+                            okc, _ = edge_fail_closed(b, sw_b, rej)
                             found[name] = ("ok" if okc else "open", b, bi, "idx %s party count, reject edge %s" % (o, "only reaches Err" if okc else "can reach Ok"))
                 # inputs.len() vs expected
                 if op in ("Ne", "Eq") and ((fa == {"inputs"} and "input_regs" in cc) or (fc == {"inputs"} and "input_regs" in ca)
                                            or (fa >= {"inputs"} and fc and "inputs" not in fc and "input_regs" in (ca | cc))):
                     rej = other if op == "Ne" else zero
-                    okc, _ = edge_fail_closed(b, bi, rej)
+                    okc, _ = edge_fail_closed(b, sw_b, rej)
                     found["inputs_len"] = ("ok" if okc else "open", b, bi, "inputs.len() %s expected" % op)
         for bi, t in b.calls():
             names = callee_names(t)
